@@ -22,6 +22,9 @@ REPLAYS = os.path.join(VERIF, "replays")
 JAVA_CP = "/opt/veriftools/tla/tla2tools.jar:/opt/veriftools/tla/CommunityModules-deps.jar"
 
 
+KEYS_NOT_SYNC = False
+
+
 class ToolError(Exception):
     pass
 
@@ -55,8 +58,15 @@ def build_harness():
     _alt_harness()
     env = dict(os.environ, CARGO_NET_OFFLINE="true")
     t0 = time.time()
+    global KEYS_NOT_SYNC
     p = subprocess.run(["cargo", "build", "--release", "--offline"], cwd=HARNESS, env=env,
                        stdout=subprocess.PIPE, stderr=subprocess.STDOUT, text=True)
+    if p.returncode != 0 and ("cannot be shared between threads safely" in p.stdout or "`Sync` is not" in p.stdout):
+        # the library's key types are no longer Sync: rebuild with one clone per thread and let the C01 check say so
+        log("[build] the library's key/signature types are not Sync; rebuilding the harness without shared key objects")
+        p = subprocess.run(["cargo", "build", "--release", "--offline", "--no-default-features"], cwd=HARNESS, env=env,
+                           stdout=subprocess.PIPE, stderr=subprocess.STDOUT, text=True)
+        KEYS_NOT_SYNC = p.returncode == 0
     if p.returncode != 0:
         log(p.stdout[-4000:])
         raise ToolError("cargo build of the harness failed")
